@@ -186,7 +186,7 @@ fn gen_c05(ctx: &GenCtx, i: u64) -> Option<Run> {
         super::c03::raw_footer_edits(&mut rb, t.msg, f, &mut outs);
     }
     // the footer *segment text* cut or extended by single base64 symbols
-    for text in ["A", "AA", "_", "="] {
+    for text in ["A", "AA", "_", "=", ".", ".x", "..", ".Zm9v", "..junk", ".QUJD.QUJD"] {
         outs.push(rb.fault(t.msg, FaultKind::Extend { text: text.to_string() }, None));
     }
     for s in [Seg::Footer] {
@@ -229,7 +229,18 @@ fn gen_c06(ctx: &GenCtx, i: u64) -> Option<Run> {
                 1 => Some(String::new()),
                 _ => Some(if r.chance(1, 2) { ascii!(r, 1 + r.usize(24)) } else { nonempty_text!(r, 24) }),
             };
-            let footer = gen_opt_text(&mut r).map(|f| f.chars().take(10).collect::<String>());
+            let mut footer = gen_opt_text(&mut r).map(|f| f.chars().take(10).collect::<String>());
+            if let (Some(a), true) = (&assertion, r.chance(1, 5)) {
+                // the footer repeats (or contains) the assertion: still two separate inputs
+                if !a.is_empty() {
+                    footer = Some(match r.below(4) {
+                        0 => a.clone(),
+                        1 => format!("kid-{}", a),
+                        2 => format!("{}-1", a),
+                        _ => serde_json::json!({"kid": "k1", "tenant": a}).to_string(),
+                    });
+                }
+            }
             let raw = layer == Layer::Core && r.chance(1, 3);
             let big = !slow && r.chance(1, 10);
             let msg = if raw { ascii!(r, *r.pick(&[0usize, 0, 1, 2, 16])) } else if big { ascii!(r, *r.pick(&[4000usize, 4096, 5000, 8192, 9000, 70_000])) } else { ascii!(r, r.usize(40)) };
